@@ -161,13 +161,37 @@ def load_val(v):
     return v
 
 
+def compress_fn(ctx, report=True):
+    """the one function that builds a CompressedLog out of a `&Log` - a `From<&Log>` impl or a private constructor, wherever in
+    the logging module it lives: located by its signature (one parameter `&Log`, returns CompressedLog)"""
+    F = ctx.facts
+    fns = []
+    for f in F.all_fns:
+        if f.kind not in ("Fn", "AssocFn") or not f.file.startswith("src/logging/") or f.body.argc != 1:
+            continue
+        try:
+            rt, at = f.body.local_ty(0), f.body.local_ty(1)
+        except Exception:
+            continue
+        if rt.split("<")[0].endswith("::CompressedLog") and at.startswith("&") and at.lstrip("&").split("<")[0].endswith("logging::log::Log"):
+            # (a plain forwarder - Log::as_compressed calling it - is not the builder)
+            calls = [t for _b, t in f.body.calls()]
+            if len(calls) == 1 and (calls[0]["f"].get("ret") or "").split("<")[0].endswith("::CompressedLog"):
+                continue
+            fns.append(f)
+    if len(fns) != 1:
+        if report:
+            ctx.check(False, "C15.R3", "CompressedLog::from", "anchor", "the function building a CompressedLog from a &Log was not found (%s)" % [f.key for f in fns], kind="anchor-missing")
+        return None
+    return fns[0]
+
+
 def r3_compressed(ctx):
     F = ctx.facts
-    fns = [f for f in F.all_fns if f.key.startswith("<mahf::logging::log::CompressedLog as core::convert::From<") and f.key.endswith(">::from")]
-    if not ctx.check(len(fns) == 1, "C15.R3", "CompressedLog::from", "anchor", "From<&Log> for CompressedLog not found", kind="anchor-missing"):
+    fn = compress_fn(ctx)
+    if fn is None:
         return
-    fn = fns[0]
-    CL = LOG + "log::CompressedLog"
+    CL = fn.body.local_ty(0).split("<")[0]      # (wherever in the logging module the type lives)
     bad = []
     n = 0
     name_i, val_i = F.field_index(ENTRY, "name"), F.field_index(ENTRY, "value")
@@ -568,6 +592,11 @@ def r9_exports(ctx):
     succeed.  The codecs themselves (serde_json, ciborium) are trusted."""
     F = ctx.facts
     n = 0
+    comp = compress_fn(ctx, report=False)
+
+    def makes_compressed(k):
+        """the function that builds the compressed form from the log (decided by R3): answered symbolically here"""
+        return comp is not None and k == comp.key
     for name, crate in (("to_json", "serde_json"), ("to_cbor", "ciborium")):
         fn = F.fn(LOG + "log::Log::" + name)
         bad = []
@@ -586,7 +615,7 @@ def r9_exports(ctx):
                         return Sym("writer(%s)" % getattr(vals[-1], "tag", "?"))
                     if k in ("core::convert::AsRef::as_ref",) and vals and isinstance(vals[0], Sym):
                         return vals[0]
-                    if (k in ("core::convert::Into::into", "core::convert::From::from")) and "CompressedLog" in " ".join(f.get("gargs") or []):
+                    if ((k in ("core::convert::Into::into", "core::convert::From::from")) and "CompressedLog" in " ".join(f.get("gargs") or [])) or makes_compressed(k):
                         return Sym("compressed(%s)" % getattr(vals[0], "tag", "?"))
                     if k.startswith(crate + "::") or k.startswith("serde_json::") or k.startswith("ciborium::"):
                         tags = sorted(getattr(v, "tag", "?") for v in vals)
@@ -601,6 +630,7 @@ def r9_exports(ctx):
                         return vals[0] if nm != "flush" else ok(Agg("tuple", None, None, []))
                     return TOP
                 it = install(Interp(fn.body, chain(oracle, coll_oracle, std_oracle), [Sym("log"), Sym("path")], facts=F, inline=lambda k: k.startswith(LOG + "log::") or k.startswith("<" + LOG + "log::Log"), max_visits=8))
+                it.never_inline = makes_compressed
                 n += 1
                 outs = [(p.end, p.ret.variant if isinstance(p.ret, Agg) else None) for p in it.run()]
                 want = [("return", "Ok" if create_ok and ser_ok else "Err")]
